@@ -6,7 +6,7 @@
 #                                                      quick checks, restore /repo; prints which ones fire
 set -u
 cmd="$1"; shift
-CONF=/tmp/confirm_wt
+CONF="${CONFIRM_WT:-/tmp/confirm_wt}"
 case "$cmd" in
 confirm)
   dir="$1"; k="$2"; name="$3"
@@ -22,11 +22,11 @@ confirm)
       (cd "$CONF" && CARGO_NET_OFFLINE=true timeout 900 cargo test -p oxmpl --offline --test seeded_demo 2>&1 | tail -15)
       return ${PIPESTATUS[0]}
     else
-      (cd "$CONF" && cargo build -p oxmpl-py --offline >/tmp/confirm_pybuild.log 2>&1) || { tail -5 /tmp/confirm_pybuild.log; return 99; }
-      mkdir -p /tmp/confirm_py && cp "$CONF/target/debug/liboxmpl_py.so" /tmp/confirm_py/.tmp.so && mv -f /tmp/confirm_py/.tmp.so /tmp/confirm_py/oxmpl_py.so
-      PYTHONPATH=/tmp/confirm_py timeout 900 /usr/bin/python3 "$demo" >/tmp/confirm_demo.out 2>&1
+      (cd "$CONF" && cargo build -p oxmpl-py --offline >${CONF}_pybuild.log 2>&1) || { tail -5 ${CONF}_pybuild.log; return 99; }
+      mkdir -p ${CONF}_py && cp "$CONF/target/debug/liboxmpl_py.so" ${CONF}_py/.tmp.so && mv -f ${CONF}_py/.tmp.so ${CONF}_py/oxmpl_py.so
+      PYTHONPATH=${CONF}_py timeout 900 /usr/bin/python3 "$demo" >${CONF}_demo.out 2>&1
       local prc=$?
-      tail -8 /tmp/confirm_demo.out
+      tail -8 ${CONF}_demo.out
       return $prc
     fi
   }
